@@ -285,6 +285,16 @@ func genPrefix(c *ctx) {
 			base.SetBit(base, 127, 1)
 		}
 		poolStr := fmt.Sprintf("%s/%d", bigToIP(base).String(), cfg.poolLen)
+		if c.rng.Intn(5) == 0 {
+			// the pool written with bits set behind its length (an address inside it, as ParseCIDR accepts and normalises):
+			// the last block's base, or the base plus one
+			nb := new(big.Int).Lsh(big.NewInt(1), uint(cfg.page-cfg.poolLen))
+			off := new(big.Int).Lsh(new(big.Int).Sub(nb, big.NewInt(1)), uint(128-cfg.page))
+			if c.rng.Intn(2) == 0 || off.Sign() == 0 {
+				off = big.NewInt(1)
+			}
+			poolStr = fmt.Sprintf("%s/%d", bigToIP(new(big.Int).Add(base, off)).String(), cfg.poolLen)
+		}
 		sizeStr := strconv.Itoa(cfg.page)
 		switch c.rng.Intn(30) {
 		case 0:
